@@ -561,6 +561,14 @@ def op_getitem_oob(h, e):
     expect_exc(ctx, "index_error_expected", (IndexError,), lambda: e.obj[idx], "getitem(%r)" % (idx,))
 
 
+def _np_int(rng, k):
+    """The same integer as a Python int or as one of NumPy's integer scalars (what np.argmin(), a loop over np.arange() give)."""
+    r = rng.random()
+    if r < 0.55:
+        return int(k)
+    return [np.int64, np.int32, np.intp, np.int16][int(rng.integers(4))](k)
+
+
 def op_getitem_stack(h, e):
     ctx, rng, mm = h.ctx, h.rng, e.mm
     if mm.m == 0:
@@ -571,7 +579,7 @@ def op_getitem_stack(h, e):
         ctx.log("s.getitem", k); ctx.op("stack[int]")
         if k < 0:
             ctx.mark_nontrivial()
-        res = e.obj[k]
+        res = e.obj[_np_int(rng, k)]
         nm = mm.select_models([k % mm.m])
         nm.kind = "array"
         h.add(res, nm, e.group); h.changed = True
@@ -591,7 +599,7 @@ def op_getitem_stack(h, e):
     if form == "2d_int_first":
         k = int(rng.integers(-mm.m, mm.m))
         ctx.log("s.getitem2d", k, alg); ctx.op("stack[int,%s]" % alg[0]); ctx.mark_nontrivial()
-        res = e.obj[k, aidx]
+        res = e.obj[_np_int(rng, k), aidx]
         pos = resolve(adesc, mm.n)
         if adesc[0] == "int":
             compare_atom(ctx, res, mm, pos[0], k % mm.m)
